@@ -386,6 +386,7 @@ func handleCreatePermissionRequest(req Request, stunMsg *stun.Message) error {
 
 	addCount := 0
 	errorCode := stun.CodeBadRequest
+	var accepted []*allocation.Permission
 
 	if err := stunMsg.ForEach(stun.AttrXORPeerAddress, func(m *stun.Message) error {
 		var peerAddress proto.PeerAddress
@@ -413,7 +414,10 @@ func handleCreatePermissionRequest(req Request, stunMsg *stun.Message) error {
 		req.Log.Debugf("Adding permission for %s", net.JoinHostPort(
 			peerAddress.IP.String(), strconv.Itoa(peerAddress.Port)))
 
-		alloc.AddPermission(allocation.NewPermission(
+		// Install nothing until every peer address of the request has been
+		// accepted: a request answered with an error must not create or
+		// refresh permissions for the peers that preceded the offending one.
+		accepted = append(accepted, allocation.NewPermission(
 			&net.UDPAddr{
 				IP:   peerAddress.IP,
 				Port: peerAddress.Port,
@@ -426,6 +430,11 @@ func handleCreatePermissionRequest(req Request, stunMsg *stun.Message) error {
 		return nil
 	}); err != nil {
 		addCount = 0
+		accepted = nil
+	}
+
+	for _, perm := range accepted {
+		alloc.AddPermission(perm)
 	}
 
 	respClass := stun.ClassSuccessResponse
